@@ -155,6 +155,18 @@ Fixpoint read_frames (k : nat) (stream : bytes) (max : Z) : list (wres (header *
     end
   end.
 
+(* what WriteFrames(fs) puts on the wire, as ReadFrame results *)
+Definition written_frames (fs : list frame) : list (wres (header * bytes)) :=
+  map (fun f => WOk (with_bodylen (f_hdr f) (N.of_nat (length (f_body f))), f_body f)) fs.
+
+(* a Read call is issued past the header iff a non-empty body buffer was obtained *)
+Definition ro_beyond (o : read_out) : bool :=
+  match ro_alloc o with Some n => negb (n =? 0) | None => false end.
+(* the heap may grow by a body-sized amount only when the allocator was reached *)
+Definition big_body : N := 1048576.
+Definition ro_alloc_over (o : read_out) : bool :=
+  match ro_alloc o with Some n => big_body <=? n | None => false end.
+
 (* ---- decidable equalities for the case files ---------------------------- *)
 Definition werr_eqb (a b : werr) : bool :=
   match a, b with
